@@ -7,7 +7,7 @@
 EXTENDS FgdDocOps, Json
 
 CONSTANTS WithDoc, WithText,
-          Slice,          \* which family of definitions: "header", "kv", "io", "res"
+          Slice,          \* which family of definitions: "header", "kv", "io", "res", "num"
           TextLen, TextLimit, TextMinNl
 
 VARIABLES orig, opts, stage, cur, lines, first,      \* document machine
@@ -60,6 +60,9 @@ Ent(kind, alias, bases, helpers, desc, order, kvs, ins, outs, resset, res) ==
      order |-> order, kvs |-> kvs, ins |-> ins, outs |-> outs, res_set |-> resset, res |-> res]
 Plain(kvs, ins, outs) == Ent("pointclass", FALSE, <<>>, <<>>, "", KeysOf(kvs, 1), kvs, ins, outs, FALSE, <<>>)
 
+NumLike == {"5", "-5", "-", "--5", "5-3", " 5", "12 ", "\t7", "+3", "1_0", "1e5", "1e+5", "1E-2", "inf", "-inf", "+inf", "nan", "NaN",
+            "Infinity", ".5", "5.", "-.5", "1.5", "1.5e3", "0x10", "1_", "_1", "1__0", "1_0.0_1", "e5", "1e", ".", "1 2", "1.2.3", "1e2e3"}
+
 Docs ==
     CASE Slice = "header" ->
             {Ent(k, al, b, h, d, <<"k1", "k2">>, <<K1, K2>>, <<>>, <<>>, FALSE, <<>>) :
@@ -75,6 +78,13 @@ Docs ==
             {Plain(<<>>, <<io>>, <<>>) : io \in IoDomain} \cup {Plain(<<>>, <<>>, <<io>>) : io \in IoDomain}
             \cup {Plain(<<K1>>, <<IO("Fire", <<>>, "void", ""), IO("Fire", <<"A">>, "angle", "x")>>,
                         <<IO("OnFire", <<>>, "float", "")>>)}
+      [] Slice = "num" ->
+            \* number-like defaults and choice values: which of them may be written bare
+            {Plain(<<KV("k1", <<>>, ty, "Nm", de, ds, FALSE, FALSE, <<>>)>>, <<>>, <<>>) :
+                ty \in {"string", "integer", "float"}, de \in NumLike, ds \in {"", "D"}}
+            \cup {Plain(<<KV("k1", <<>>, "choices", "Nm", de, "", FALSE, FALSE,
+                            <<[v |-> de, n |-> "First", tags |-> <<>>], [v |-> v2, n |-> "Second", tags |-> <<>>]>>)>>, <<>>, <<>>) :
+                    de \in NumLike, v2 \in {"0", "x"}}
       [] Slice = "res" ->
             {Ent("pointclass", FALSE, <<>>, <<>>, "", <<>>, <<>>, <<>>, <<>>, TRUE, r) :
                 r \in {<<>>} \cup {<<Res(t, f, tg)>> : t \in ResTypes, f \in {"m/a.mdl", "a b\"c"}, tg \in Tags}
